@@ -6,6 +6,7 @@ CONSTANTS
   ExitLinked = FALSE
   StopAfterAnswer = TRUE
   ResumeAllEdges = TRUE
+  StartNodePerFlow = TRUE
   StepCap = 600
   CheckLoader = FALSE
 SPECIFICATION Spec
